@@ -25,8 +25,14 @@ EVIDENCE_DIR = os.environ.get('VERIF_EVIDENCE_DIR', os.path.join(VERIF, 'evidenc
 ALL_PROPS = ['C%02d' % i for i in range(1, 18)]
 
 # which witness-search oracle of /verif/replay corresponds to a property (best effort, never decides)
-ORACLES = {'C01': 'solvency', 'C02': 'solvency', 'C04': 'solvency', 'C06': 'exit_liveness', 'C08': 'approver_tracks_size',
-           'C09': 'solvency', 'C10': 'mechanism', 'C11': 'bid_consistency'}
+# executable oracles of the replay tool (real code) per property: used for (i) a concrete failing history next to a failed
+# obligation, (ii) the thorough tier's randomized exploration, (iii) the bounded stand-in when a function is out of the
+# verifier's reach
+ORACLES = {'C01': ['solvency'], 'C02': ['settlement', 'solvency'], 'C03': ['match_eligibility'],
+           'C04': ['solvency', 'exit_liveness'], 'C05': ['authorization'], 'C06': ['exit_liveness'], 'C07': ['admission'],
+           'C08': ['approver_tracks_size'], 'C09': ['solvency', 'settlement'], 'C10': ['mechanism'],
+           'C11': ['bid_consistency', 'ask_consistency'], 'C12': ['config_change'], 'C13': ['instantiate_coherence'],
+           'C14': ['migration'], 'C15': ['migration'], 'C16': ['queries'], 'C17': ['attributes']}
 # properties with strict-mode (liveness) clauses
 CALLER_PROPS = {'contract::cancel_ask': ['C04', 'C06'], 'contract::reverse_ask': ['C04', 'C06'], 'contract::reverse_bid': ['C04', 'C06'],
                 'contract::execute_match': ['C02', 'C03'], 'contract::create_ask': ['C07'], 'contract::create_bid': ['C07'],
@@ -230,7 +236,7 @@ def trusted_base_list(text):
 
 ASSUMPTION_IDS = [
     'A-VERUS: Verus 0.2026.09.13 + Z3 are sound',
-    'A-EXTRACT: the mechanical rewrites R1-R15 / drops D-a..D-f of DESIGN.md section 4 preserve semantics (counts in coverage.extraction)',
+    'A-EXTRACT: the mechanical rewrites R1-R17 / drops D-a..D-f of DESIGN.md section 4 preserve semantics (counts in coverage.extraction)',
     'A-ROLLBACK: a request that returns Err or aborts leaves no state or balance change (chain semantics); all safety clauses are phrased on Ok',
     'A-CHAIN: the chain executes each message of an Ok response exactly once and credits attached funds before execute',
     'A-STORE: cw-storage-plus save/load/remove/update/is_empty as specified in shim (namespaces disjoint, keys are raw id bytes)',
@@ -253,31 +259,71 @@ def load_known():
     return json.load(open(p)).get('findings', [])
 
 
-def witness_search(prop, seed, outdir, budget_iters):
-    """best-effort search for a concrete failing history on the real code (never decides a property)"""
-    oracle = ORACLES.get(prop)
-    binp = os.path.join(VERIF, 'replay', 'target', 'release', 'ats-replay')
-    if oracle is None:
-        return None, 'no executable oracle registered for this property'
-    try:
-        b = subprocess.run(['cargo', 'build', '--release', '--offline', '-q'], cwd=os.path.join(VERIF, 'replay'),
-                           capture_output=True, text=True, timeout=900,
-                           env=dict(os.environ, CARGO_NET_OFFLINE='true'))
-        if b.returncode != 0:
-            return None, 'replay tool does not build against the current tree: ' + b.stderr[-400:]
-    except Exception as e:  # noqa
-        return None, 'replay tool build failed: %s' % e
-    os.makedirs(outdir, exist_ok=True)
-    for profile in ('default', 'convertible', 'fees', 'nonlot', 'markers'):
-        out = os.path.join(outdir, 'witness_%s_%s.json' % (oracle, profile))
+_PROFILES = {}
+
+
+def oracle_profiles(binp):
+    """search profiles registered for each oracle (asked of the tool, so that the two cannot drift apart)"""
+    if not _PROFILES:
         try:
-            p = subprocess.run([binp, 'search', '--oracle', oracle, '--seed', str(seed), '--iters', str(budget_iters),
-                                '--profile', profile, '--out', out], capture_output=True, text=True, timeout=600)
+            p = subprocess.run([binp, 'oracles', '--profiles'], capture_output=True, text=True, timeout=60)
+            for l in p.stdout.split('\n'):
+                if ':' in l:
+                    k, v = l.split(':', 1)
+                    _PROFILES[k.strip()] = v.split()
+        except Exception:  # noqa
+            pass
+    return _PROFILES
+
+
+def run_searches(prop, seed, iters, outdir, tag, max_profiles=None):
+    """randomized history search on the real code with this property's oracles: every (oracle, profile) pair as its own
+    process, in parallel. Returns (hits [(path, note)], runs [report rows], note)"""
+    oracles = ORACLES.get(prop) or []
+    if not oracles:
+        return [], [], 'no executable oracle registered for this property'
+    binp, err = replay_bin()
+    if binp is None:
+        return [], [], 'replay tool does not build against the current tree: %s' % err
+    os.makedirs(outdir, exist_ok=True)
+    profs = oracle_profiles(binp)
+    jobs = []
+    for o in oracles:
+        pl = profs.get(o) or ['default']
+        if max_profiles:
+            pl = pl[:max_profiles]
+        for pr in pl:
+            jobs.append((o, pr, os.path.join(outdir, '%s_%s_%s.json' % (tag, o, pr))))
+
+    def one(job):
+        o, pr, out = job
+        try:
+            if os.path.exists(out):
+                os.remove(out)
+            p = subprocess.run([binp, 'search', '--oracle', o, '--seed', str(seed), '--iters', str(iters),
+                                '--profile', pr, '--out', out], capture_output=True, text=True, timeout=1500)
         except subprocess.TimeoutExpired:
-            continue
-        if p.returncode == 1 and os.path.exists(out):
-            return out, 'oracle=%s profile=%s: %s' % (oracle, profile, p.stdout.strip().split('\n')[-1])
-    return None, 'witness search (oracle %s, %d iterations x 5 profiles) found no failing history' % (oracle, budget_iters)
+            return (o, pr, out, None, 'timeout')
+        last = (p.stdout.strip().split('\n') or [''])[-1]
+        return (o, pr, out, p.returncode, last)
+    from concurrent.futures import ThreadPoolExecutor
+    with ThreadPoolExecutor(max_workers=14) as ex:
+        done = list(ex.map(one, jobs))
+    hits, runs = [], []
+    for o, pr, out, rc, last in done:
+        runs.append({'oracle': o, 'profile': pr, 'iterations': iters, 'result': last})
+        if rc == 1 and os.path.exists(out):
+            hits.append((out, 'oracle=%s profile=%s: %s' % (o, pr, last)))
+    return hits, runs, ('%d (oracle, profile) searches of %d iterations each: %d with a failing history'
+                        % (len(jobs), iters, len(hits)))
+
+
+def witness_search(prop, seed, outdir, budget_iters):
+    """best-effort search for a concrete failing history on the real code (never decides a proved property)"""
+    hits, runs, note = run_searches(prop, seed, budget_iters, outdir, 'witness')
+    if hits:
+        return hits[0][0], hits[0][1]
+    return None, 'witness search (%s) found no failing history' % note
 
 
 def main():
@@ -485,24 +531,13 @@ def thorough_extras(prop, seed, results):
                 elif p.returncode != 0:
                     undecided.append('replay of %s could not run (exit %d)' % (k['history'], p.returncode))
         rep['fixed_histories_replayed'] = hist
-        oracle = ORACLES.get(prop)
-        if oracle:
+        if ORACLES.get(prop):
             rdir = os.path.join(VERIF, 'replays', prop)
-            os.makedirs(rdir, exist_ok=True)
-            sr = []
-            for profile in ('default', 'convertible', 'fees', 'nonlot', 'markers'):
-                out = os.path.join(rdir, 'search_%s_%s.json' % (oracle, profile))
-                try:
-                    p = subprocess.run([binp, 'search', '--oracle', oracle, '--seed', str(seed or 1), '--iters', '6000',
-                                        '--profile', profile, '--out', out], capture_output=True, text=True, timeout=1200)
-                except subprocess.TimeoutExpired:
-                    sr.append({'profile': profile, 'result': 'timeout'})
-                    continue
-                last = (p.stdout.strip().split('\n') or [''])[-1]
-                sr.append({'profile': profile, 'result': last})
-                if p.returncode == 1 and os.path.exists(out):
-                    hits.append(out)
-            rep['witness_search_on_real_code'] = {'oracle': oracle, 'kind': 'randomized exploration, not proof', 'runs': sr}
+            h2, runs, note = run_searches(prop, seed or 1, 20000, rdir, 'search')
+            hits += [h for h, _ in h2]
+            rep['witness_search_on_real_code'] = {'oracles': ORACLES.get(prop), 'kind': 'randomized exploration, not proof',
+                                                  'bound': 'histories of at most 10 generated steps (migration profile 14, instantiate 2); value ranges in replay/ORACLES.md',
+                                                  'summary': note, 'runs': runs}
     # (d) assumption audit
     audit = os.path.join(VERIF, 'audit', 'run.sh')
     if os.path.exists(audit):
@@ -532,6 +567,7 @@ def finish(prop, tier, seed, results, t_start, extra=None):
     known = [k for k in load_known() if k.get('property') == prop]
     known_labels = {k['label']: k for k in known if k.get('status') == 'known' and k.get('label')}
     violations, known_hits, undecided_msgs = [], [], []
+    out_of_reach = []      # functions with a clause of this property that the verifier could not be given / could not decide
     obligations = 0
     discharged = 0
     samples = []
@@ -566,6 +602,7 @@ def finish(prop, tier, seed, results, t_start, extra=None):
             if q in fns_explicit:
                 undecided_msgs.append('%s: %s is outside the extraction rules / verifier subset (%s); its clauses are not decided'
                                       % (mode, q, why[:160]))
+                out_of_reach.append(q)
         per_mode_unx = r['report'].get('unextractable') or {}
         if r['compile_errors']:
             undecided_msgs.append('%s: the generated file does not compile / uses an unsupported construct: %s'
@@ -575,6 +612,8 @@ def finish(prop, tier, seed, results, t_start, extra=None):
             if fq in fns or u['kind'] == 'rlimit' and (not fq or fq in fns) or \
                     (u['kind'] in ('uncontracted-callee', 'unannotated-closure') and relevant(u.get('props', []), prop)):
                 undecided_msgs.append('%s: %s in %s: %s' % (mode, u['kind'], u.get('function'), u['message'][:200]))
+                if u['kind'] in ('uncontracted-callee', 'unannotated-closure') and fq:
+                    out_of_reach.append(fq)
         vj = (r['res']['json'] or {}).get('verification-results', {})
         per_mode[mode] = {'verified': vj.get('verified'), 'errors': vj.get('errors'),
                           'wall_s': round(r['res']['wall_s'], 1),
@@ -692,6 +731,29 @@ def finish(prop, tier, seed, results, t_start, extra=None):
             log('VIOLATION property=%s replay=%s%s' % (prop, path, '' if witness else ' no-failing-input-found'))
         return 1
     if undecided_msgs:
+        # BOUNDED STAND-IN (never counted as proved): a function carrying a clause of this property is out of the verifier's
+        # reach on this tree; explore the real code with the property's executable oracle. A failing history is a real
+        # violation (replayable input); finding none leaves the property undecided.
+        if out_of_reach and ORACLES.get(prop) and not os.environ.get('VERIF_NO_WITNESS'):
+            rdir = os.path.join(VERIF, 'replays', prop)
+            iters = 3000 if tier == 'quick' else 12000
+            hits, runs, note = run_searches(prop, seed or 1, iters, rdir, 'bounded')
+            ev['coverage']['bounded'] = [{'functions': sorted(set(out_of_reach)), 'stand_in': 'randomized search over histories of the real contract with the oracle(s) %s' % ', '.join(ORACLES[prop]),
+                                          'bound': '%s; histories of at most 10 generated steps (migration 14, instantiate 2), seed %d' % (note, seed or 1),
+                                          'counts_as': 'bounded exploration only - the property stays undecided when nothing is found',
+                                          'runs': runs}]
+            ev['violations'] = len(hits)
+            json.dump(ev, open(os.path.join(EVIDENCE_DIR, '%s.json' % prop), 'w'), indent=1)
+            if hits:
+                path = os.path.join(rdir, 'bounded_stand_in.json')
+                rep = {'property': prop, 'failed_obligation': None, 'mode': 'bounded stand-in',
+                       'functions_out_of_reach': sorted(set(out_of_reach)), 'why_out_of_reach': undecided_msgs[:5],
+                       'witness_history': hits[0][0], 'witness_note': hits[0][1],
+                       'how_to_replay': './check %s --replay %s' % (prop, path)}
+                json.dump(rep, open(path, 'w'), indent=1)
+                log('VIOLATION property=%s replay=%s' % (prop, path))
+                return 1
+            undecided_msgs.append('bounded stand-in on the real code found no failing history (%s)' % note)
         for m in undecided_msgs[:10]:
             log('UNDECIDED property=%s: %s' % (prop, m))
         return 2
@@ -701,7 +763,10 @@ def finish(prop, tier, seed, results, t_start, extra=None):
 
 def do_replay(path):
     rep = json.load(open(path))
-    log('failed obligation: %s (%s mode) in %s' % (rep.get('failed_obligation'), rep.get('mode'), rep.get('function')))
+    if rep.get('failed_obligation'):
+        log('failed obligation: %s (%s mode) in %s' % (rep.get('failed_obligation'), rep.get('mode'), rep.get('function')))
+    else:
+        log('bounded stand-in: %s out of the verifier\'s reach; failing history found on the real code' % ', '.join(rep.get('functions_out_of_reach', [])))
     for o in rep.get('verifier_output', []):
         log(o)
     w = rep.get('witness_history')
